@@ -57,8 +57,11 @@ def _draw_glyph(glyph, gspec):
             pen.addComponent(comp[0], tuple(comp[1]), identifier=comp[2])
         else:
             pen.addComponent(comp[0], tuple(comp[1]))
-    for name, x, y in gspec.get("anchors", []):
-        glyph.appendAnchor({"name": name, "x": x, "y": y})
+    for a in gspec.get("anchors", []):
+        d = {"name": a[0], "x": a[1], "y": a[2]}
+        if len(a) > 3 and a[3]:
+            d["identifier"] = a[3]
+        glyph.appendAnchor(d)
     for k, v in gspec.get("lib", {}).items():
         glyph.lib[k] = _copy(v)
 
